@@ -37,7 +37,7 @@ CLAIM = dict(
          "signature must satisfy the reference equation and be accepted everywhere; for several hundred thousand candidates per run "
          "(mutations of valid signatures, constructed edge signatures, foreign keys/messages/identifiers, random pairs) the library's "
          "verdict must equal the reference's in both directions; signing with a scalar >= n-1 must fail on every call of every "
-         "three-operation history without panicking and within a 4096-block read budget. Three arithmetic back ends (ADX+BMI2, plain "
+         "three-operation history without panicking and within a logical read budget (256 blocks on invalid keys; 4096 blocks per honest signing call). Three arithmetic back ends (ADX+BMI2, plain "
          "MULQ, pure Go). Held on the cases executed; not a proof.",
     design_ref="DESIGN.md 6 (C06)",
     note="trusted: harness/ref/sm2sig, ref/ec, ref/sm3, math/big, encoding/asn1 (self test only), crypto/elliptic P-256 for the legacy "
